@@ -562,6 +562,17 @@ func (vc *VC) storeStructAt(st *State, t types.Type, ref Term, v Term) {
 	}
 }
 
+// assumeRType records the dynamic type of a freshly allocated object:
+// rtype(ref) is the tag of the allocated type (struct, map, slice backing
+// array, channel, closure). References are untyped integers; contracts that
+// quantify over all references of a type ("forall e *Entry :: ...") guard
+// their bodies with isa(e, "Entry") to leave out objects of other types
+// allocated in the same range.
+func (vc *VC) assumeRType(pc Term, ref Term, t types.Type) {
+	vc.declare("rtype", "(declare-fun rtype (Int) Int)")
+	vc.assume(pc, eq(T(SInt, "(rtype %s)", ref.S), vc.typeTag(t)))
+}
+
 // allocRef returns a fresh reference and advances the watermark.
 func (vc *VC) allocRef(st *State, guard Term) Term {
 	r := vc.def("new", st.wm)
